@@ -1,4 +1,6 @@
 import Generated.KeyFamily
+import Generated.KeyOps
+import Model.KeyOps
 /-
   C02 — "an algorithm that … belongs to the same family as the supplied key": symmetric and asymmetric material never
   cross. Over the table of `prepare_key` outcomes regenerated from the current code (see Props/C20Keys):
@@ -40,5 +42,91 @@ theorem classes_covered : ∀ r ∈ prepareKey, symmetric (cls r) = true ∨ asy
 /-- non-vacuity: the matching cells succeed -/
 example : ∃ r ∈ prepareKey, cls r = "HMACAlgorithm" ∧ kty r = "oct" ∧ outcome r = "ok" := by decide +kernel
 example : ∃ r ∈ prepareKey, cls r = "ECAlgorithm" ∧ kty r = "EC" ∧ outcome r = "ok" := by decide +kernel
+
+end Props.C02Keys
+
+/-! ### `use` / `key_ops` restrictions (C02: "restricting a key by use or key_ops is honoured") -/
+namespace Props.C02Keys
+open Model.KeyOps Generated.KeyOps
+
+theorem check_restricted (k : Restr) (op : String) (l : List String) (hk : k.keyOps = some l) (hl : op ∉ l) : check k op = .unsupportedKeyOp := by
+  have : opsForbid k op = true := by simp [opsForbid, hk, hl]
+  simp [check, this]
+
+/-- a key whose key_ops does not list an operation the algorithm asks about is refused -/
+theorem restricted_key_refused (requested : List String) (k : Restr) (op : String) (l : List String)
+    (hop : op ∈ requested) (hk : k.keyOps = some l) (hl : op ∉ l) : performs requested k = false := by
+  unfold performs
+  rw [List.all_eq_false]
+  exact ⟨op, hop, by rw [check_restricted k op l hk hl]; decide⟩
+
+theorem useVerdict_mismatch (k : Restr) (op u : String) (hu : k.use = some u) (hne : u.isEmpty = false)
+    (hmis : (op ∈ encOps ∧ op ∉ sigOps ∧ u ≠ "enc") ∨ (op ∈ sigOps ∧ u ≠ "sig")) :
+    useVerdict k op = .invalidUse := by
+  unfold useVerdict
+  rw [hu]
+  rcases hmis with ⟨he, hs, hn⟩ | ⟨hs, hn⟩
+  · simp [hne, hs, he, hn]
+  · simp [hne, hs, hn]
+
+theorem check_use_mismatch (k : Restr) (op u : String) (hu : k.use = some u) (hne : u.isEmpty = false)
+    (hmis : (op ∈ encOps ∧ op ∉ sigOps ∧ u ≠ "enc") ∨ (op ∈ sigOps ∧ u ≠ "sig")) :
+    check k op ≠ .ok := by
+  unfold check
+  by_cases h1 : opsForbid k op = true
+  · rw [if_pos h1]; decide
+  · rw [if_neg h1]
+    by_cases h2 : (privateOps.contains op && k.publicOnly) = true
+    · rw [if_pos h2]; decide
+    · rw [if_neg h2, useVerdict_mismatch k op u hu hne hmis]; decide
+
+/-- a key marked for signatures is refused by everything that asks about an encryption operation, and vice versa -/
+theorem use_mismatch_refused (requested : List String) (k : Restr) (op u : String) (hop : op ∈ requested) (hu : k.use = some u) (hne : u.isEmpty = false)
+    (hmis : (op ∈ encOps ∧ op ∉ sigOps ∧ u ≠ "enc") ∨ (op ∈ sigOps ∧ u ≠ "sig")) :
+    performs requested k = false := by
+  unfold performs
+  rw [List.all_eq_false]
+  refine ⟨op, hop, ?_⟩
+  have := check_use_mismatch k op u hu hne hmis
+  cases hc : check k op <;> simp_all
+
+def prod (r : String × String × String × List String × List String) : List String := r.2.2.2.1
+def cons (r : String × String × String × List String × List String) : List String := r.2.2.2.2
+def kcls (r : String × String × String × List String × List String) : String := r.2.2.1
+
+/-- regenerated table: every signature algorithm asks "sign" to produce and "verify" to consume -/
+theorem jws_asks_sign_and_verify : ∀ r ∈ keyOps, r.1 = "jws" → prod r = ["sign"] ∧ cons r = ["verify"] := by
+  decide +kernel
+
+/-- every key-management algorithm asks an encryption-side operation of the key it produces with … -/
+theorem jwe_producing_side_asks : ∀ r ∈ keyOps, r.1 = "jwe" → prod r = ["wrapKey"] ∨ prod r = ["encrypt"] := by
+  decide +kernel
+
+/-- … and the matching one of the key it consumes with — except the ECDH-ES family -/
+theorem jwe_consuming_side_asks_partial : ∀ r ∈ keyOps, r.1 = "jwe" → kcls r ≠ "ECDHESAlgorithm" →
+    (prod r = ["wrapKey"] → cons r = ["unwrapKey"]) ∧ (prod r = ["encrypt"] → cons r = ["decrypt"]) := by
+  decide +kernel
+
+/-- hence (with `use_mismatch_refused`) no algorithm outside the ECDH-ES family decrypts with a `use: sig` key -/
+theorem sig_key_never_decrypts_partial : ∀ r ∈ keyOps, r.1 = "jwe" → kcls r ≠ "ECDHESAlgorithm" →
+    ∀ k : Restr, k.use = some "sig" → performs (cons r) k = false := by
+  intro r hr hj hc k hu
+  have h := jwe_consuming_side_asks_partial r hr hj hc
+  rcases jwe_producing_side_asks r hr hj with hp | hp
+  · rw [(h.1 hp)]
+    exact use_mismatch_refused _ k "unwrapKey" "sig" (by simp) hu (by decide) (Or.inl ⟨by decide, by decide, by decide⟩)
+  · rw [(h.2 hp)]
+    exact use_mismatch_refused _ k "decrypt" "sig" (by simp) hu (by decide) (Or.inl ⟨by decide, by decide, by decide⟩)
+
+/-- the full sentence is false: ECDH-ES decryption asks nothing of the recipient key, so every key "performs" (known finding
+    C02-ecdh-decrypt-ignores-use-and-key_ops) -/
+theorem ecdh_consuming_side_asks_nothing :
+    (∃ r ∈ keyOps, kcls r = "ECDHESAlgorithm" ∧ cons r = []) ∧ ∀ k : Restr, performs [] k = true := by
+  constructor
+  · decide +kernel
+  · intro k; rfl
+
+example : performs ["unwrapKey"] ⟨some "enc", some ["unwrapKey"], false⟩ = true := by decide
+example : performs ["unwrapKey"] ⟨none, some ["wrapKey"], false⟩ = false := by decide
 
 end Props.C02Keys
